@@ -112,14 +112,21 @@ func evalLine(line string) (out string) {
 		}
 		return "S F"
 	case "X", "O":
-		l, err := spdxexp.ExtractLicenses(unhx(f[1]))
+		res, err := spdxexp.ExtractLicenses(unhx(f[1]))
 		if err != nil {
-			if l != nil {
+			if res != nil {
 				return f[0] + " E-BUT-NONNIL"
 			}
 			return f[0] + " E"
 		}
-		l = append([]string(nil), l...)
+		l := append([]string(nil), res...)
+		// a result the caller still holds must not change when the library is called again
+		spdxexp.ExtractLicenses("Zlib AND (0BSD OR Unlicense) AND X11 AND WTFPL AND curl AND Vim AND Ruby")
+		for i := range l {
+			if i >= len(res) || res[i] != l[i] {
+				return f[0] + " RESULT-CHANGED-BY-A-LATER-CALL"
+			}
+		}
 		if f[0] == "X" {
 			sort.Strings(l)
 		}
@@ -131,10 +138,28 @@ func evalLine(line string) (out string) {
 			v = 1
 		}
 		return fmt.Sprintf("L %d %s", v, hxl(bad))
-	case "R":
-		_, err := spdxexp.ExtractLicenses(unhx(f[1]))
+	case "R", "Q":
+		var err error
+		if f[0] == "R" {
+			_, err = spdxexp.ExtractLicenses(unhx(f[1]))
+		} else {
+			var allowed []string
+			if f[2] != "-" {
+				allowed = unhxl(f[2])
+			}
+			_, err = spdxexp.Satisfies(unhx(f[1]), allowed)
+		}
 		if err == nil {
-			return "R ok"
+			return f[0] + " ok"
+		}
+		if f[0] == "Q" {
+			if m := reOffset.FindStringSubmatch(err.Error()); m != nil {
+				if q := reQuoted.FindStringSubmatch(err.Error()); q != nil {
+					return "Q unk " + m[1] + " " + hx(q[1])
+				}
+				return "Q eid " + m[1]
+			}
+			return "Q other"
 		}
 		if m := reOffset.FindStringSubmatch(err.Error()); m != nil {
 			if q := reQuoted.FindStringSubmatch(err.Error()); q != nil {
@@ -193,6 +218,7 @@ func (c *Ctx) ask(line string) string {
 func (c *Ctx) S(e string, a []string) string { return after(c.ask("S " + hx(e) + " " + hxl(a))) }
 func (c *Ctx) V(e string) string             { return after(c.ask("V " + hx(e))) }
 func (c *Ctx) R(e string) string             { return after(c.ask("R " + hx(e))) }
+func (c *Ctx) Q(e string, a []string) string { return after(c.ask("Q " + hx(e) + " " + hxl(a))) }
 func (c *Ctx) L(l []string) string           { return after(c.ask("L " + hxl(l))) }
 
 // X: sorted set; O: in order.  ok=false on error/panic/unknown.
